@@ -7,6 +7,7 @@ import MobiusModel.TranslatedTies
 import MobiusModel.ChatGate
 import MobiusModel.LoginName
 import MobiusModel.Generated.PrivGates
+import MobiusModel.SetUserLogins
 /-!
   C05 — Every privileged effect requires the governing privilege.
 
@@ -298,5 +299,68 @@ theorem name_is_assigned_only_under_any_name : Generated.nameWrites = [
     ("HandleTranAgreed", "t.GetField(hotline.FieldUserName).Data != nil && cc.Authorize(hotline.AccessAnyName)", "t.GetField(hotline.FieldUserName).Data"),
     ("HandleTranAgreed", "t.GetField(hotline.FieldUserName).Data != nil && !(cc.Authorize(hotline.AccessAnyName))", "[]byte(cc.Account.Name)"),
     ("HandleSetClientUserInfo", "cc.Authorize(hotline.AccessAnyName)", "t.GetField(hotline.FieldUserName).Data")] := by decide
+
+/-! ### wave e — logins are byte-string keys (`bob` ≠ `Bob`): the account store, the sessions, the single-account editor
+
+  `SetUserLogins`: accounts keyed by the login bytes, sessions carrying a copy of their account, `setUser` = lookup
+  (unknown login → refused, nothing changes), store, push into the sessions whose login is byte-wise equal. -/
+section SetUserLoginsC05
+open SetUserLogins
+
+/-- After ANY history of account creations, logins and single-account edits every session carries exactly what ITS OWN
+    account (the key byte-wise equal to its login) stores — so `Authorize` on the session decides every request by the
+    privilege its account holds at that moment, never by another account's. -/
+theorem session_authorized_by_own_account {α : Type} (es : List (Ev α)) (s : Sess α)
+    (hs : s ∈ (SetUserLogins.run World.init es).sess) :
+    lookup s.login (SetUserLogins.run World.init es).accts = some s.access :=
+  coherent_run es _ coherent_init s hs
+
+/-- An acknowledged set-user for login `l` changes the stored access of exactly the key `l` and the access of exactly
+    the sessions whose account login = `l` as byte strings; ids, logins and order of the sessions are kept. -/
+theorem set_user_changes_exactly_login {α : Type} (w : World α) (l : Bytes) (a : α) (h : (setUser w l a).2 = true) :
+    (∀ l', lookup l' (setUser w l a).1.accts = if l' = l then some a else lookup l' w.accts) ∧
+    (setUser w l a).1.sess = w.sess.map (fun s => if s.login = l then { s with access := a } else s) := by
+  rw [setUser_ack_world w l a h]
+  have hk := (setUser_ack_iff w l a).mp h
+  refine ⟨fun l' => ?_, rfl⟩
+  show lookup l' (update l a w.accts) = _
+  rw [lookup_update]
+  cases hl : lookup l w.accts with
+  | none => rw [hl] at hk; cases hk
+  | some b => rfl
+
+/-- … in particular an edit of account X never changes what a session of an account Y ≠ X (byte-wise) may do. -/
+theorem set_user_other_login_untouched {α : Type} (w : World α) (l : Bytes) (a : α) (s : Sess α) (hs : s ∈ w.sess)
+    (hne : s.login ≠ l) : s ∈ (setUser w l a).1.sess ∧ lookup s.login (setUser w l a).1.accts = lookup s.login w.accts := by
+  cases h : (setUser w l a).2 with
+  | false =>
+    have : lookup l w.accts = none := by
+      cases hl : lookup l w.accts with
+      | none => rfl
+      | some b => have := (setUser_ack_iff w l a).mpr (by simp [hl]); rw [h] at this; cases this
+    rw [setUser_refused w l a this]; exact ⟨hs, rfl⟩
+  | true =>
+    obtain ⟨h1, h2⟩ := set_user_changes_exactly_login w l a h
+    refine ⟨?_, by rw [h1]; simp [hne]⟩
+    rw [h2]; exact List.mem_map.mpr ⟨s, hs, by simp [hne]⟩
+
+/-- A set-user naming a login that is not a key is refused and changes nothing. -/
+theorem set_user_unknown_login_refused {α : Type} (w : World α) (l : Bytes) (a : α) (h : lookup l w.accts = none) :
+    setUser w l a = (w, false) := setUser_refused w l a h
+
+/-- non-vacuity: accounts `bob` (access 1) and `Bob` (access 2), one session each, then a session on `bob` again;
+    set-user `Bob` := 9 is acknowledged and changes the account `Bob` and session 11 only; `BOB` is not a key: refused. -/
+example :
+    let bob : Bytes := [98, 111, 98]
+    let Bob : Bytes := [66, 111, 98]
+    let BOB : Bytes := [66, 79, 66]
+    let w : World Nat := SetUserLogins.run World.init [.create bob 1, .create Bob 2, .login 10 bob, .login 11 Bob, .login 12 bob]
+    (setUser w Bob 9).2 = true ∧
+    (setUser w Bob 9).1.accts = [(bob, 1), (Bob, 9)] ∧
+    (setUser w Bob 9).1.sess = [⟨10, bob, 1⟩, ⟨11, Bob, 9⟩, ⟨12, bob, 1⟩] ∧
+    (setUser w BOB 9).2 = false ∧ (setUser w BOB 9).1.accts = w.accts ∧ (setUser w BOB 9).1.sess = w.sess := by
+  decide
+
+end SetUserLoginsC05
 
 end Mobius.C05
